@@ -427,8 +427,16 @@ def _handle_fn_body(body: list[ast.stmt], ctx: Context) -> sympy.Expr | None:
                     ctx.modules[name] = el
                 else:
                     _LOGGER.debug("Skipping import %s", node)
+        elif isinstance(node, ast.Pass) or (
+            isinstance(node, ast.Expr) and isinstance(node.value, ast.Constant)
+        ):
+            # docstrings and pass carry no meaning
+            continue
         else:
-            _LOGGER.debug("Skipping node of type %s", type(node))
+            # Skipping a statement (loop, augmented assignment, ...) would
+            # silently translate a different function
+            msg = f"Statement type {type(node).__name__} not implemented"
+            raise NotImplementedError(msg)
 
     # If we have pieces to combine into a Piecewise
     if pieces:
